@@ -106,3 +106,20 @@ Proof.
   intros i p H. destruct i as [|[|i]]; simpl in H; try (injection H as <-; reflexivity).
   destruct i; discriminate.
 Qed.
+
+(* the wait for a set that is complete but not ready: remembered at the first sight, two minutes from then; a ready set is
+   taken at once; a set that is being updated is skipped and forgotten *)
+From KV Require Import Proofs.K8sWait.
+Theorem C18_not_ready_is_waited_for : forall now st s,
+  st_replicas s = st_updated s -> st_ready s <> st_replicas s ->
+  let first := match rm_find (st_name s) st with None => now | Some t => t end in
+  snd (replicas_one now st s) = negb (now - first <? wait_seconds) /\
+  rm_find (st_name s) (fst (replicas_one now st s)) = Some first.
+Proof. exact not_ready_is_waited_for. Qed.
+Print Assumptions C18_not_ready_is_waited_for.
+
+Theorem C18_updating_is_skipped_and_forgotten : forall now st s,
+  st_replicas s <> st_updated s ->
+  snd (replicas_one now st s) = false /\ fst (replicas_one now st s) = rm_del (st_name s) st.
+Proof. exact updating_is_skipped_and_forgotten. Qed.
+Print Assumptions C18_updating_is_skipped_and_forgotten.
